@@ -88,11 +88,6 @@ def run(ctx, rep):
                                                      c_[0] not in fn.reach_from([c2[0]]) for c2 in cands)]
             for sb, st in (closest or cands):
                 c = classify_offset(d.of_operand(st['args'][1]))
-                if c is None:
-                    # an offset cached in a private field at mount (`self.status_byte.offset`): classified by what was stored
-                    if d_exp is None:
-                        d_exp = Deps(fn, expand_fields=True)
-                    c = classify_offset(d_exp.of_operand(st['args'][1]))
                 if c:
                     cls = c
             ok = dominated and cls is not None
